@@ -426,7 +426,7 @@ def raw(fn):
 
 # ----------------------------------------------------------------------------------------------- paging: n announcers on ONE real node
 
-def paging_run(ctx, n, seed, via='finder'):
+def paging_run(ctx, n, seed, via='finder', self_announce=False):
     """n scripted announcers fetch a token from the real node S (findValue) and store with it (real datagrams through the
     network); then a second real node C pages S with the real IterativeValueFinder (shortlist = [S]).
     via='rpc': the real server RPC is called page by page with the client's continuation rule applied by the driver."""
@@ -462,7 +462,14 @@ def paging_run(ctx, n, seed, via='finder'):
     w.run_until(w.loop.time() + 1.0)
     acked = sum(1 for a in anns if any(m.get('response') == b'OK' for m, _ in a.inbox))
     want = {(a.id, a.addr[0], a.tcp_port) for a in anns}
-    rec = {'kind': 'paging', 'via': via, 'n': n, 'acked': acked, 'seed': seed}
+    rec = {'kind': 'paging', 'via': via, 'n': n, 'acked': acked, 'seed': seed, 'self_announce': self_announce}
+    me = (C.protocol.node_id, C.protocol.external_ip, C.protocol.peer_port)
+    if self_announce:
+        # the searching node holds the blob too and has announced it on S through the real client path (token + store)
+        t, budget = w.run_task(C.protocol.store_to_peer(key, make_kademlia_peer(S.protocol.node_id, *s_addr)), 30)
+        if not t.done() or budget or t.exception() is not None or not t.result()[1]:
+            raise MachineryError(f'the searching node could not store its own announcement: {t}')
+        w.run_until(w.loop.time() + 1.0)
     tap = w.tap(C)
     if via == 'finder':
         task, budget = w.run_task(value_lookup(C, key, shortlist=[make_kademlia_peer(S.protocol.node_id, *s_addr)]), 60, stop=lambda: tap.max_per_dst > PAGER_PROBE_BUDGET)
@@ -497,7 +504,7 @@ def paging_run(ctx, n, seed, via='finder'):
             # pylint: disable=unreachable
         got = {(c[6:], '.'.join(str(b) for b in c[:4]), int.from_bytes(c[4:6], 'big')) for c in discovered}
         rec['requests'] = reqs
-    rec.update({'finished': True, 'returned': len(got & want), 'extra': len(got - want),
+    rec.update({'finished': True, 'returned': len(got & want), 'extra': len(got - want - {me}),
                 'pages_claimed': claimed[0] if claimed else -1, 'pages_consistent': len(set(claimed)) <= 1})
     w.stop()
     return rec
@@ -708,11 +715,15 @@ class Network:
         task, budget = w.run_task(node.announce_blob(key.hex()), 300)
         self.ann_time = getattr(self, 'ann_time', {})
         self.ann_time.setdefault(key, t0)
+        self.round_start = getattr(self, 'round_start', {})
+        if node in self.announcements.get(key, []):       # the same node announces again: THE announcement is now this one
+            self.round_start[key] = t0
         if not task.done() or budget:           # the product code did not come back within 300 virtual seconds / the step budget
             task.cancel()
             recs.append({'kind': 'announce', 'n': self.n, 'seed': self.seed, 'stored_to': -1, 'stored_seen': -1, 'want': min(8, self.n - 1),
                          'rank_max': 0, 'converged': False, 't': ticks(t0), 'raised': 'announce_blob did not finish'})
-            self.announcements.setdefault(key, []).append(node)
+            if node not in self.announcements.setdefault(key, []):
+                self.announcements[key].append(node)
             return
         stored_to = task.result() if task.exception() is None else []
         w.run_until(w.loop.time() + (0.0 if w.net.max_delay == 0 else 1.0))      # let duplicates of the store requests land
@@ -722,8 +733,9 @@ class Network:
         converged = self.converged()
         recs.append({'kind': 'announce', 'n': self.n, 'seed': self.seed, 'stored_to': len(set(stored_to)), 'stored_seen': len(seen), 'want': want,
                      'rank_max': xor_rank(key, others, set(stored_to)), 'converged': converged, 't': ticks(t0), 'raised': '' if task.exception() is None else repr(task.exception())})
-        self.announcements.setdefault(key, []).append(node)
-        self.ctx.count(('announce', self.n, self.seed, key.hex()[:8]), nontrivial=True)
+        if node not in self.announcements.setdefault(key, []):
+            self.announcements[key].append(node)
+        self.ctx.count(('announce', self.n, self.seed, key.hex()[:8], ticks(t0)), nontrivial=True)
 
     def converged(self):
         """every node's routing table holds its K closest other nodes (what DhtStore.tla calls saturated, seen through get_peer)"""
@@ -752,6 +764,8 @@ class Network:
             got = {(p.node_id, p.address, p.tcp_port) for batch in out for p in batch}
             want = {(a.protocol.node_id, a.protocol.external_ip, a.protocol.peer_port) for a in anns}
             st = self.store_times(key) or [self.ann_time[key]]      # nothing stored anywhere: the age counts from the announce call
+            # after a re-announcement by the same node the announcement that has to be findable is the latest one
+            st_round = [t for t in st if t >= getattr(self, 'round_start', {}).get(key, 0)] or st
             probes = [r for r in tap.requests if r['method'] == 'findValue' and r['key'] == key and r['t'] >= t0]
             per = collections.Counter((r['dst'], r['page']) for r in probes)
             ys = [{'o': [int(x) for x in p.address.split('.')], 'port': p.tcp_port if isinstance(p.tcp_port, int) else -1,
@@ -760,7 +774,7 @@ class Network:
             recs.append({'kind': 'hit', 'mode': 'value', 'n': self.n, 'seed': self.seed, 'phase': phase, 'announcers': len(anns),
                          'finished': bool(task.done() and not budget), 'stopped_by_probe_budget': False,
                          'found': want <= got, 'missing': len(want - got),
-                         'age_hi': ticks(t1 - min(st), up=True), 'age_lo': ticks(t0 - max(st)), 'day': DAY * TICK,
+                         'age_hi': ticks(t1 - min(st_round), up=True), 'age_lo': ticks(t0 - max(st)), 'day': DAY * TICK,
                          't0': ticks(t0), 't1': ticks(t1, up=True), 'timeout': int(RPC_TIMEOUT * TICK), 'nprobes': len(probes),
                          'max_same_probe': max(per.values()) if per else 0, 'max_per_peer': 0, 'yielded': ys})
             if not task.done():
@@ -827,11 +841,14 @@ def _network_run(ctx, n, seed, recs, cross_day=True, multi=0, sample=None):
     key1, key2, key3 = nid(f'blob1-{n}-{seed}'), nid(f'blob2-{n}-{seed}'), nid(f'blob3-{n}-{seed}')
     net.announce(w.nodes[rng.randrange(n)], key1, recs)
     net.lookups(key1, recs, 'fresh')
+    key4 = nid(f'blob4-{n}-{seed}')
+    renewer = w.nodes[rng.randrange(n)]
+    if cross_day:
+        net.announce(renewer, key4, recs)
     if multi:
         for a in rng.sample(w.nodes, min(multi, n - 1)):
             net.announce(a, key3, recs)
         net.lookups(key3, recs, 'fresh-multi')
-    net.token_experiment(recs)
     # an announcement whose stores all land at one exact virtual instant T0
     T0 = float(int(w.loop.time()) + 2)
     w.run_until(T0)
@@ -843,6 +860,9 @@ def _network_run(ctx, n, seed, recs, cross_day=True, multi=0, sample=None):
     net.exact(False)
     net.lookups(key2, recs, 'fresh-exact', searchers)
     if cross_day:
+        # the announcer of key4 announces again half a day later (what the blob announcer does for blobs it still holds)
+        w.run_until(T0 + DAY // 2)
+        net.announce(renewer, key4, recs)
         w.run_until(T0 + DAY - 30)
         net.lookups(key1, recs, 'day-30s', searchers)
         net.lookups(key2, recs, 'day-30s', searchers)
@@ -859,6 +879,14 @@ def _network_run(ctx, n, seed, recs, cross_day=True, multi=0, sample=None):
         net.lookups(key2, recs, 'day+400s', searchers)
         if multi:
             net.lookups(key3, recs, 'day+400s-multi', searchers)
+        net.lookups(key4, recs, 'renewed-12h', searchers)            # first announcement expired, second one 12 h old: still findable
+        if n <= 5 or ctx.thorough:
+            w.run_until(T0 + DAY // 2 + DAY + 700)
+            net.lookups(key4, recs, 'renewed-expired', searchers)    # and no longer once the second one is 24 h old
+    # last, because it rotates a node's token secret by hand (nothing in the product does): the 'Invalid token' errors that
+    # other nodes' cached tokens then earn are rated as failures of that node, and in the zero-delay mode used above such a
+    # failure and the successful retry carry the same timestamp (the rating treats the tie as 'failed since')
+    net.token_experiment(recs)
     exc = len(w.loop.exceptions)
     w.stop()
     return {'n': n, 'seed': seed, 'steps': w.loop.steps, 'datagrams': w.net.sent, 'loop_exceptions': exc,
@@ -1034,7 +1062,7 @@ def lookup_scenarios(ctx):
 
 def classify(rec, inv):
     if rec['kind'] == 'paging':
-        return 'find_value-page-count-loses-announcers'
+        return 'paging-incomplete-when-the-searcher-announced-too' if rec.get('self_announce') else 'find_value-page-count-loses-announcers'
     if rec['kind'] == 'lookup' and inv == 'TTerminates' and rec['mode'] == 'value' and any(r in PAGERS for r in rec['roles']):
         return 'value-lookup-follows-pages-without-bound'
     return f"{rec['kind']}-{inv}"
@@ -1052,6 +1080,9 @@ def run(ctx):
     for n in (ns if ctx.thorough else [1, 8, 9, 16, 17, 64, 72, 88, 89, 90, 96, 97, 98, 99, 100]):
         recs.append(paging_run(ctx, n, ctx.seed + 2, 'rpc'))
         ctx.count(('paging', 'rpc', n), nontrivial=n > 8)
+    for n in (range(9, 101) if ctx.thorough else [9, 10, 16, 17, 25, 40, 64, 89, 100]):
+        recs.append(paging_run(ctx, n, ctx.seed + 3, 'finder', self_announce=True))
+        ctx.count(('paging', 'finder-self', n), nontrivial=True)
     ctx.leg('C-paging', runs=len(recs))
     # ---- lookups against dead / hostile peers
     rng = random.Random(ctx.seed * 17 + 3)
@@ -1081,7 +1112,7 @@ def run(ctx):
     # ---- spec drift (NOTE only): the paging numbers of the real node against the two transcribed formulas
     variant = {f: all(r['returned'] == expected[f]['rows'][r['n']]['got'] and r['pages_claimed'] == expected[f]['rows'][r['n']]['pages']
                       and r['requests'] == expected[f]['rows'][r['n']]['reqs']
-                      for r in recs if r['kind'] == 'paging' and r['finished']) for f in ('found', 'ceiling')}
+                      for r in recs if r['kind'] == 'paging' and r['finished'] and not r.get('self_announce')) for f in ('found', 'ceiling')}
     if not any(variant.values()):
         print('NOTE: spec drift: the page counts / returned announcers of the real node match neither transcribed formula', flush=True)
     ctx.leg('C-paging', real_code_matches_formula=[f for f, v in variant.items() if v])
@@ -1092,7 +1123,9 @@ def run(ctx):
                        'Leg C: one record per real experiment -- paging n = 1..100 on one real node through real datagrams and the real finder; '
                        'every entry of the hostile catalogue alone and next to honest/dead peers, all honest/dead/hostile assignments, dead-only '
                        'populations, lossy networks; real networks of 2..40 nodes with announcements at random and at exact instants and value '
-                       'lookups from every other node fresh, 30 s before, 1/1024 s before, exactly at and 400 s after 24 h. '
+                       'lookups from every other node fresh, 30 s before, 1/1024 s before, exactly at and 400 s after 24 h; an announcer that '
+                       'announces again after 12 h (findable 24 h after the first announcement, not 24 h after the second); paging by a '
+                       'searcher that is itself among the announcers. '
                        'Distinct = distinct (experiment kind, parameters).')
     ctx.assumptions += ['UDP is replaced by a driver-controlled in-process datagram network; a real node reads one datagram per loop iteration as a selector transport does',
                         'time is virtual (DetLoop): rpc_timeout 5 s, 24 h and the 300 s ping delay are exact; the hit guarantee is judged after a warm-up of 4000 virtual seconds with network delays <= 0.2 s',
